@@ -433,6 +433,13 @@ def interacting_split(ctx, IN, A, w, v, p, g1, g2, cid, ro=None):
                 continue
             a0 = (g1, g2) if arity == 2 else (g1,)
             a1 = (h1, h2) if arity == 2 else (h1,)
+            if ro is not None and (v + n) % 3 == 0:
+                # (node lists as arrays of a narrow integer type, the way
+                #  an index file or np.arange(..., dtype=...) delivers them)
+                dt_ = (np.int8, np.uint8, np.int16)[(v + len(g1)) % 3]
+                a0 = tuple(np.asarray(x, dtype=dt_) for x in a0)
+                a1 = tuple(np.asarray(x, dtype=dt_) for x in a1)
+                ctx.count("interacting_lists_as_narrow_integer_arrays")
             ok0, x0 = ctx.call(getattr(n0, m), *a0)
             ok1, x1 = ctx.call(getattr(n1, m), *a1)
             ctx.evals(2)
